@@ -17,13 +17,14 @@ LEVEL = "exploration"
 TECHNIQUE = "online memo-store monitor + channel differential against an independent Euler reference interpreter"
 RULE = ("seeded random acyclic stock/flow specs (1-3 stocks, flows/biflows/converters/constants, equations depth<=3 over "
         "+ - * / min max abs sqrt If, time/dt/starttime/stoptime, lookup (inline and named points), delay (with/without "
-        "initial value), smooth, trend, step, pulse) x 12 run specs incl. decimal dt and non-zero start. "
+        "initial value), smooth, trend, step, pulse) x 12 run specs incl. decimal dt and non-zero start; every fourth model is defined under other run specs "
+        "(earlier start, coarser dt) and receives its run specs afterwards through Model.run_specs(). "
         "distinct_nontrivial = distinct (built-in, position) pairs and element-kind/dt classes observed in well-conditioned "
         "specs whose trajectory is not constant.")
 ASSUMPTIONS = ["step(h,ts)=h for t>ts and pulse=v/dt at first(+k*interval): the convention of the library's own test_sddsl_functions",
                "ill-conditioned specs (near a discontinuity, |v|>1e12, tiny divisors) are dropped by a reference-side rule and counted",
                "random-number functions are excluded here (C08 covers them)"]
-REQUIRED = {"memo_events_checked": 1000, "df_cells": 1000, "call_cells": 1000, "plot_cells": 500}
+REQUIRED = {"models_with_run_specs_set_after_definition": 20, "memo_events_checked": 1000, "df_cells": 1000, "call_cells": 1000, "plot_cells": 500}
 BUDGET_S = {"quick": 100, "thorough": 1200}
 
 
@@ -57,7 +58,8 @@ def run_case(case):
         return dict(verdict="illcond", counters={"illcond": 1})
     names = [e["name"] for e in sp["elements"]]
     times = ref.times
-    res = compare_dsl(sp, names, times, table, counters)
+    # every fourth model is defined under other run specs (earlier start, coarser dt) and gets the spec's run specs afterwards
+    res = compare_dsl(sp, names, times, table, counters, late_runspecs=(case.get("seed", 0) % 4 == 1))
     nt = []
     nonconst = any(max(v) - min(v) > 1e-9 for v in table.values())
     if nonconst:
@@ -80,11 +82,13 @@ def lookup_time(index, t):
     return None
 
 
-def compare_dsl(sp, names, times, table, counters, tol=1e-9):
+def compare_dsl(sp, names, times, table, counters, tol=1e-9, late_runspecs=False):
     """Returns None or a witness dict for the first divergence."""
     from BPTK_Py import bptk
     try:
-        m, E = S.build_dsl(sp, name="m")
+        m, E = S.build_dsl(sp, name="m", late_runspecs=late_runspecs)
+        if late_runspecs:
+            counters["models_with_run_specs_set_after_definition"] = 1
     except Exception as e:
         return dict(mech="build-exception", error=repr(e)[:300])
     start, dt = float(sp["run"]["start"]), float(sp["run"]["dt"])
